@@ -194,8 +194,15 @@ def foreign_doc(h, r):
     md = [(dict(h[n].metadata) or None) for n in h]
     doc = {"version": "live", "nodes": nodes, "edges": edges, "metadata": md,
            "encoder": "hugr-rs v0.15.0"}
-    if all(m is None for m in md) and r.random() < 0.3:
-        doc["metadata"] = None
+    how = r.random()
+    if all(m is None for m in md) and how < 0.3:
+        doc["metadata"] = r.choice([None, []])
+        if r.random() < 0.3:
+            del doc["metadata"]          # the key has a default
+    elif how < 0.55 and len(md) > 1:
+        # a metadata array that covers only the leading nodes (nothing constrains its length): the document says
+        # that the remaining nodes have none
+        doc["metadata"] = md[:r.randrange(1, len(md))]
     items = list(doc.items())
     r.shuffle(items)
     return dict(items), nulls
